@@ -2,7 +2,7 @@
 """tools/add_manifest.py Cxx : take the JSON object of section 7 of reports/REPORT-Cxx.md into tools/manifest_src.json"""
 import sys, json, re
 P = sys.argv[1]
-EXT = "-ext" if len(sys.argv) > 2 and sys.argv[2] == "ext" else ""
+EXT = ("-" + sys.argv[2]) if len(sys.argv) > 2 else ""
 t = open(f"/verif/reports/REPORT-{P}{EXT}.md").read()
 objs = re.findall(r"```json\s*(\{.*?\})\s*```", t, flags=re.S)
 obj = None
